@@ -48,6 +48,8 @@ type c18StartScn struct {
 	schedule  bool            // a schedule binding as well (it never ticks: "0 3 1 1 *")
 	webhooks  []string        // other bindings of the hook
 	objects   []time.Duration // ConfigMaps created after the start-up burst is over, at these offsets
+	quiet     time.Duration   // nothing happens for this long between the end of the start-up burst and the first object
+	serial    bool            // every object but the first is created when an Event execution has started since the previous one (never combined)
 }
 
 func c18StartupCorpus(idx int) c18StartScn {
@@ -69,6 +71,22 @@ func c18StartupCorpus(idx int) c18StartScn {
 		s.binds[4].queue = "pods"
 		s.binds[0].queue = "cms"
 		return s
+	case 23:
+		// the history "start-up, a quiet period of several intervals, then a burst of events": whatever the start-up
+		// did, the bucket holds B tokens after the pause, not one per binding
+		s := c18StartScn{desc: "corpus: I=300ms B=1, six ConfigMap bindings in six queues (main, qa .. qe); after the start-up burst 2.1 s (7 intervals) of silence, then one ConfigMap: six Event executions at once",
+			throttled: true, iv: 300 * time.Millisecond, b: 1,
+			binds:   []c18KBind{kb(0, "ConfigMap"), kb(1, "ConfigMap"), kb(2, "ConfigMap"), kb(3, "ConfigMap"), kb(4, "ConfigMap"), kb(5, "ConfigMap")},
+			objects: []time.Duration{0}, quiet: 2100 * time.Millisecond}
+		for i, q := range []string{"qa", "qb", "qc", "qd", "qe"} {
+			s.binds[i+1].queue = q
+		}
+		return s
+	case 24:
+		return c18StartScn{desc: "corpus: I=400ms B=2, five bindings (3 ConfigMap, Secret, Pod) all in main; after the start-up burst 2 s (5 intervals) of silence, then 5 ConfigMaps one after another, each when the previous one's execution has started",
+			throttled: true, iv: 400 * time.Millisecond, b: 2,
+			binds:   []c18KBind{kb(0, "ConfigMap"), kb(1, "Secret"), kb(2, "ConfigMap"), kb(3, "Pod"), kb(4, "ConfigMap")},
+			objects: []time.Duration{0, 0, 0, 0, 0}, quiet: 2 * time.Second, serial: true}
 	default:
 		return c18StartScn{desc: "corpus: no settings, five kubernetes bindings: nothing is throttled",
 			binds: []c18KBind{kb(0, "ConfigMap"), kb(1, "Secret"), kb(2, "Pod"), kb(3, "ConfigMap"), kb(4, "Secret")}}
@@ -102,14 +120,35 @@ func c18StartupRandom(rng *Rng) c18StartScn {
 			at += time.Duration(rng.Intn(int(s.iv/time.Millisecond))) * time.Millisecond / 2
 		}
 	}
+	if len(s.objects) > 0 && rng.Chance(50) {
+		// a quiet period of B+2 .. B+4 intervals after the start-up burst (the bucket is full again: B tokens),
+		// then the events; short intervals so that the run stays short
+		s.iv = PickOne(rng, []time.Duration{300 * time.Millisecond, 400 * time.Millisecond})
+		s.quiet = time.Duration(s.b+rng.Range(2, 4)) * s.iv
+		s.serial = rng.Bool()
+		if s.serial {
+			for len(s.objects) < s.b+3 {
+				s.objects = append(s.objects, 0)
+			}
+		} else {
+			// the ConfigMap bindings get queues of their own: one object = one execution per binding, side by side
+			qi := 0
+			for i := range s.binds {
+				if s.binds[i].kind == "ConfigMap" && s.binds[i].group == "" {
+					s.binds[i].queue = []string{"", "qa", "qb", "qc", "qd", "qe"}[qi%6]
+					qi++
+				}
+			}
+		}
+	}
 	ungrouped := 0
 	for _, b := range s.binds {
 		if b.group == "" && b.execOnSync {
 			ungrouped++
 		}
 	}
-	s.desc = fmt.Sprintf("I=%v B=%d throttled=%v, %d kubernetes bindings (%d executed on Synchronization without a group), onStartup=%v schedule=%v webhooks=%v, %d objects created afterwards",
-		s.iv, s.b, s.throttled, n, ungrouped, s.onStartup, s.schedule, s.webhooks, len(s.objects))
+	s.desc = fmt.Sprintf("I=%v B=%d throttled=%v, %d kubernetes bindings (%d executed on Synchronization without a group), onStartup=%v schedule=%v webhooks=%v, %d objects created afterwards (after a pause of %v, one by one=%v)",
+		s.iv, s.b, s.throttled, n, ungrouped, s.onStartup, s.schedule, s.webhooks, len(s.objects), s.quiet, s.serial)
 	return s
 }
 
@@ -212,23 +251,17 @@ func c18RunStartup(r *Run, c *Case, scn c18StartScn) {
 		}
 		time.Sleep(5 * time.Millisecond)
 	}
-	// the bindings are enabled and every Synchronization task is done: now objects appear in the cluster
+	// the bindings are enabled and every Synchronization task is done; a quiet period (the hook's bucket refills
+	// to its burst B and not further), then objects appear in the cluster
+	if scn.quiet > 0 && len(scn.objects) > 0 {
+		time.Sleep(scn.quiet)
+		c.Note("quiet-period-before-events")
+	}
 	evLo := time.Now().UnixNano()
 	watchers := 0 // bindings whose Event executions are recognisable (no group) and that watch ConfigMaps
 	for _, b := range scn.binds {
 		if b.kind == "ConfigMap" && b.group == "" {
 			watchers++
-		}
-	}
-	tEv := time.Now()
-	for i, at := range scn.objects {
-		if d := at - time.Since(tEv); d > 0 {
-			time.Sleep(d)
-		}
-		mft := manifest.MustFromYAML(fmt.Sprintf("apiVersion: v1\nkind: ConfigMap\nmetadata:\n  name: \"o%d\"\ndata:\n  v: \"%d\"\n", i, i))
-		if err := fc.Create(ns, mft); err != nil {
-			c.Inconcl = "cluster operation failed: " + err.Error()
-			return
 		}
 	}
 	readLog := func() (lines [][]string) {
@@ -239,6 +272,33 @@ func c18RunStartup(r *Run, c *Case, scn c18StartScn) {
 			}
 		}
 		return lines
+	}
+	eventExecs := func() (n int) {
+		for _, f := range readLog() {
+			if f[2] != "sync" && f[1] != "onStartup" && f[1] != "none" {
+				n++
+			}
+		}
+		return n
+	}
+	tEv := time.Now()
+	seenBefore := eventExecs()
+	for i, at := range scn.objects {
+		if d := at - time.Since(tEv); d > 0 {
+			time.Sleep(d)
+		}
+		if scn.serial && i > 0 && watchers > 0 {
+			// one by one: wait (at most 10 s, asserting nothing) until an execution has started since the previous object
+			for till := time.Now().Add(10 * time.Second); eventExecs() <= seenBefore && time.Now().Before(till); {
+				time.Sleep(3 * time.Millisecond)
+			}
+			seenBefore = eventExecs()
+		}
+		mft := manifest.MustFromYAML(fmt.Sprintf("apiVersion: v1\nkind: ConfigMap\nmetadata:\n  name: \"o%d\"\ndata:\n  v: \"%d\"\n", i, i))
+		if err := fc.Create(ns, mft); err != nil {
+			c.Inconcl = "cluster operation failed: " + err.Error()
+			return
+		}
 	}
 	if len(scn.objects) > 0 && watchers > 0 {
 		// wait (never asserting how long it takes) until the events have been delivered and executed: at
@@ -350,6 +410,12 @@ func c18RunStartup(r *Run, c *Case, scn c18StartScn) {
 		}
 	}
 	c.Op(fmt.Sprintf("operator-startup binds=%d", len(scn.binds)), status)
+	// after start-up, pause and events the hook's limiter is still the one its settings describe
+	if scn.throttled {
+		c.Op(fmt.Sprintf("hookcfg-after i=%d b=%d binds=%s", int64(scn.iv), scn.b, strings.Join(binds, "+")), c18LimLine(hk.RateLimiter))
+	} else {
+		c.Op(fmt.Sprintf("hookcfg-after i=- b=- binds=%s", strings.Join(binds, "+")), c18LimLine(hk.RateLimiter))
+	}
 	c.Note("kind:operator-startup")
 	c.Note(fmt.Sprintf("sync-executions:%d", len(synced)))
 	c.Nontrivial = len(execs) >= 3
